@@ -1436,6 +1436,16 @@ where
     if bpb.reserved_block_count() == 0 || bpb.num_fats() == 0 {
         return Err(Error::FormatError("Bad BPB block counts"));
     }
+    // Every cluster needs its entry in the FAT
+    let fat_entry_size = match bpb.fat_type {
+        FatType::Fat16 => 2,
+        FatType::Fat32 => 4,
+    };
+    if (u64::from(bpb.total_clusters()) + 2) * fat_entry_size
+        > u64::from(bpb.fat_size()) * Block::LEN_U32 as u64
+    {
+        return Err(Error::FormatError("FAT too small for the cluster count"));
+    }
     let fat_start = BlockCount(u32::from(bpb.reserved_block_count()));
     let second_fat_start = if bpb.num_fats() == 2 {
         Some(fat_start + BlockCount(bpb.fat_size()))
@@ -1478,6 +1488,10 @@ where
             // FirstDataSector = BPB_ResvdSecCnt + (BPB_NumFATs * FATSz);
             let first_data_block =
                 fat_start + BlockCount(u32::from(bpb.num_fats()) * bpb.fat_size());
+            // Cluster numbers from 0x0FFF_FFF7 up are the bad-cluster and end-of-chain marks
+            if bpb.total_clusters() > 0x0FFF_FFF5 {
+                return Err(Error::FormatError("Invalid FAT format"));
+            }
             // Safe to unwrap since this is a Fat32 Type
             let info_location = bpb.fs_info_block().unwrap();
             // The info sector lives in the reserved region, after the boot sector
